@@ -204,4 +204,68 @@ theorem obuLoop_sim (c : EncCfg) (hc : ValidCfg c) (last : Bool) (L : List Bytes
             (by simp only [St.closeOpen, openPre]; simpa using hO)
           exact post_step c last L o st _ _ D D2 _ hdec rfl hpost
 
+/-- **the encoder loop never runs out of fuel** (`max ≥ 3`, non-empty OBU): one more unit of fuel
+than `len(obu) + 2` (`+ 1` on a fresh packet) gives the same result — the Go `for { … }` terminates and
+the model's fuel is never the reason for its answer. -/
+theorem obuLoop_fuel (c : EncCfg) (hc : ValidCfg c) (last : Bool) :
+    ∀ (fuel : Nat) (st : St) (obu : Bytes),
+      1 + st.cur.body.length ≤ c.max → 0 < obu.length →
+      obu.length + (if st.cur.body.isEmpty then 1 else 2) ≤ fuel →
+      obuLoop c (lebSize c.max) last (fuel + 1) st obu = obuLoop c (lebSize c.max) last fuel st obu := by
+  intro fuel
+  induction fuel with
+  | zero => intro st obu _ hpos hf; split at hf <;> omega
+  | succ fuel ih =>
+    intro st obu hroom hpos hf
+    have hmax := hc.1
+    have hlt := lebSize_lt c.max hc.1 hc.2
+    have hbody : st.cur.body.isEmpty = true → st.cur.body.length = 0 := by
+      intro h; cases hb : st.cur.body with
+      | nil => rfl
+      | cons a t => rw [hb] at h; simp at h
+    conv => lhs; rw [obuLoop]
+    conv => rhs; rw [obuLoop]
+    simp only
+    by_cases hom : (last && decide (st.cur.n < 3)) = true
+    · simp only [hom, if_true]
+      split
+      · rfl
+      · rename_i hfit
+        split
+        · rename_i hav
+          apply ih
+          · simp only [St.closeOpen, List.length_nil]; omega
+          · simp only [List.length_drop]; omega
+          · simp only [St.closeOpen, List.isEmpty_nil, if_true, List.length_drop]; split at hf <;> omega
+        · rename_i hav
+          apply ih
+          · simp only [St.closeOpen, List.length_nil]; omega
+          · exact hpos
+          · simp only [St.closeOpen, List.isEmpty_nil, if_true]
+            split at hf
+            · rename_i he; have := hbody he; omega
+            · omega
+    · simp only [hom, Bool.false_eq_true, if_false]
+      split
+      · rfl
+      · rename_i hfit
+        split
+        · rename_i hav
+          have hkl : c.max - (1 + st.cur.body.length) - lebSize c.max < obu.length := by
+            by_cases hbig : obu.length ≤ c.max
+            · have := lebSize_mono obu.length c.max hbig hc.2; omega
+            · omega
+          apply ih
+          · simp only [St.closeOpen, List.length_nil]; omega
+          · simp only [List.length_drop]; omega
+          · simp only [St.closeOpen, List.isEmpty_nil, if_true, List.length_drop]; split at hf <;> omega
+        · rename_i hav
+          apply ih
+          · simp only [St.closeOpen, List.length_nil]; omega
+          · exact hpos
+          · simp only [St.closeOpen, List.isEmpty_nil, if_true]
+            split at hf
+            · rename_i he; have := hbody he; omega
+            · omega
+
 end Rtsp.Codec.Av1
